@@ -43,7 +43,24 @@ fn template(i: u64) -> Option<Machine> {
     Some(m)
 }
 
+/// A10: under ignore_privilege a program can execute RTI while in user mode (directly or by jumping into OS code); that has no ISA
+/// meaning and may turn it into supervisor code, so such programs are not "user-mode programs" and are not judged.
+fn executes_user_rti(m: &Machine) -> bool {
+    for real in [false, true] {
+        let mut mm = m.clone(); mm.real_traps = real;
+        let mut p = build(&mm);
+        for _ in 0..LIMIT {
+            let pc = p.sim.pc;
+            if !p.sim.psr().privileged() && pc < 0xFE00 && p.sim.mem[pc].get() == 0x8000 { return true; }
+            let before = (p.sim.pc, p.sim.instructions_run);
+            match catch(|| p.sim.step_in()) { Ok(Ok(())) => {} _ => break }
+            if (p.sim.pc, p.sim.instructions_run) == before { break; }
+        }
+    }
+    false
+}
 fn check(m: &Machine, what: &str) -> Result<&'static str, (String, String)> {
+    if m.ignore_priv && executes_user_rti(m) { return Ok("unjudged"); }
     let mut mv = m.clone(); mv.real_traps = false;
     let mut mr = m.clone(); mr.real_traps = true;
     let v = run_one(&mv).map_err(|p| (format!("panic:{}", panic_site(&p)), format!("{what} (virtual): {p}")))?;
@@ -73,6 +90,7 @@ pub fn run(ctx: &Ctx) -> Report {
         let r = sweep(ctx, n * 2, 8, |k, acc| {
             let (idx, ign) = (k / 2, k % 2);
             let (m, words) = program_machine(len, idx, ign * 2);
+            // under ignore_privilege an RTI executed by the program has no ISA meaning (A10) and can turn it into supervisor code: not a user-mode program any more
             acc.evals += 1; acc.transitions += 2; acc.traces += 1;
             match check(&m, &format!("program {words:x?} ignore_privilege={}", ign == 1)) {
                 Ok(k) => { acc.count(&format!("ended_{k}"), 1); if k != "unjudged" { acc.nontrivial += 1; } acc.outcomes.insert(fnv_str(k) ^ ign); }
